@@ -8,6 +8,20 @@ mod streams2;
 use std::io::{self, BufRead, Write};
 
 fn main() {
+    // Everything runs on a thread whose stack is sized like the CLI's interpreter thread (blots/src/main.rs
+    // runs the interpreter on a 1 GiB thread so that the 1000-call depth limit is reached before the native
+    // stack ends): on the 8 MiB main thread a runaway recursion with an ordinarily nested body overflows the
+    // stack of THIS process (SIGABRT) although the shipped binary reports the depth error — which the thorough
+    // tiers of C02 / C03 (tens of thousands of generated programs) met and reported as a process death.
+    let handle = std::thread::Builder::new()
+        .name("harness".into())
+        .stack_size(1 << 30)
+        .spawn(real_main)
+        .expect("spawn harness thread");
+    let _ = handle.join();
+}
+
+fn real_main() {
     // silence the default panic message; panics are reported as data
     std::panic::set_hook(Box::new(|_| {}));
     let args: Vec<String> = std::env::args().collect();
@@ -54,6 +68,9 @@ fn main() {
         };
         out.write_all(text.as_bytes()).unwrap();
         out.write_all(b"\n").unwrap();
+        // one result per line reaches the pipe before the next case starts: a case that kills the process
+        // is then the first line without a result, not some later one
+        out.flush().unwrap();
     }
     out.flush().unwrap();
 }
